@@ -3,6 +3,51 @@ harness/reset_ops.h / ocaml/reset/driver.ml, JSON corpus for gen/c14_schema.fbs,
 import os, re, json, random
 
 
+def check_theorems(ctx, chain):
+    """ctx.check_theorems(); when the shared coq/Makefile cannot be used because it refers to a file of ANOTHER area that does
+    not exist at the moment (several areas are developed concurrently), re-check this property's own chain of files with coqc
+    directly (each file whose .vo is missing or older than its source or than an earlier file of the chain) and ask for the
+    assumptions as usual."""
+    from . import lib
+    ok = ctx.check_theorems()
+    if ok: return True
+    log = getattr(ctx, 'coq_log', '') or ''
+    own = any(os.path.basename(f)[:-2] in log for f in chain if 'No rule' in log and False)
+    if 'No rule to make target' not in log or any(("'%s'" % f) in log for f in chain):
+        return False
+    ctx.log('coq/Makefile unusable (refers to a missing file of another area): re-checking %s with coqc' % ' '.join(chain))
+    ctx.obligations = ctx.discharged = 0; ctx.theorems = []
+    newest = 0.0
+    for f in chain:
+        src = os.path.join(lib.COQ, f); vo = src + 'o'
+        stale = (not os.path.exists(vo)) or os.path.getmtime(vo) < os.path.getmtime(src) or os.path.getmtime(vo) < newest
+        if stale:
+            rc, out = lib.sh(['coqc', '-Q', '.', 'Flatcc', f], cwd=lib.COQ, timeout=1500)
+            ctx.checker_cmds.append('cd coq && coqc -Q . Flatcc ' + f)
+            if rc != 0:
+                ctx.broken = {'files': [f], 'log_tail': out[-3000:]}
+                return False
+        newest = max(newest, os.path.getmtime(vo))
+    mod = os.path.basename(chain[-1])[:-2]
+    names = ctx.theorem_names(mod + '.v')
+    ctx.obligations += len(names)
+    v = os.path.join(ctx.bdir, 'assum_%s.v' % mod)
+    with open(v, 'w') as fh:
+        fh.write('From Flatcc.Properties Require Import %s.\n' % mod)
+        for n in names:
+            fh.write('Goal True. idtac "@@ %s". exact I. Qed.\nPrint Assumptions %s.\n' % (n, n))
+    rc, o = lib.sh(['coqc', '-Q', lib.COQ, 'Flatcc', v], timeout=300, cwd=ctx.bdir)
+    if rc != 0:
+        ctx.broken = {'files': [], 'log_tail': o[-3000:]}
+        return False
+    parts = re.split(r'@@ (\S+)\n', o)
+    got = {parts[i]: ' '.join(parts[i + 1].split()) for i in range(1, len(parts) - 1, 2)}
+    for n in names:
+        ctx.theorems.append({'theorem': n, 'assumptions': got.get(n, '?')})
+        if n in got: ctx.discharged += 1
+    return ctx.discharged == ctx.obligations
+
+
 class Script:
     """A list of op tokens; every emit returns the token index so that later ops can refer to `$index`."""
     def __init__(self, ops=None):
